@@ -69,6 +69,46 @@ Theorem halley_fixed_point_partial : forall e2 ec pn zc s c,
 Proof. exact halley_fixed_point_l. Qed.
 Print Assumptions halley_fixed_point_partial.
 
+
+(* non-vacuity of the fixed-point theorem in the setting of the code: for a point ON the ellipsoid (normalised coordinates
+   pn = p/a, s0 = |z|/a with pn² + s0²/(1-e2) = 1) the start value of _trs2llh already solves the latitude equation, hence the
+   step returns the exact tangent s0 / (ec pn), i.e. tan(lat) = |z| / ((1-e2) p) *)
+Theorem halley_exact_on_surface : forall e2 pn s0,
+  0 < 1 - e2 -> 0 < pn -> 0 <= s0 -> pn² + s0² / (1 - e2) = 1 ->
+  let ec := sqrt (1 - e2) in
+  halley_S e2 ec pn (ec * s0) s0 (ec * pn) * (ec * pn) = halley_C e2 ec pn (ec * s0) s0 (ec * pn) * s0.
+Proof. exact halley_exact_on_surface_l. Qed.
+Print Assumptions halley_exact_on_surface.
+
+(* for f = 0 (the sphere) the one-step algorithm is the exact inverse of llh2trs (off the pole branch) *)
+Theorem trs2llh_exact_on_sphere : forall a x y z, 0 < a -> ~ is_pole a x y ->
+  let '(lat, lon, h) := trs2llh_R a 0 x y z in llh2trs_R a 0 lat lon h = (x, y, z).
+Proof. exact trs2llh_exact_on_sphere_l. Qed.
+Print Assumptions trs2llh_exact_on_sphere.
+
+(* verdict 0 of the correspondence, direction trs -> llh: the implementation's doubles (lat, lon, h) are within
+   1e-8 m + 4 ulp (arc length at the distance r of the point) of trs2llh_R of the exact inputs on the published ellipsoid i,
+   and the point at distance h on the normal through (lat, lon) misses the input by at most 1e-6 m (h <= 100 km) / 2 mm *)
+Theorem check_trs2llh_sound : forall i xyz llh, check_trs2llh (i, xyz, llh) = 0%Z ->
+  exists a f x y z lat lon h,
+    ell_params i = Some (a, f) /\ xyz = [x; y; z] /\ llh = [lat; lon; h]
+    /\ close_to_model a f x y z lat lon h /\ on_normal a f x y z lat lon h.
+Proof. exact check_trs2llh_sound_l. Qed.
+Print Assumptions check_trs2llh_sound.
+
+(* direction llh -> trs: every coordinate within 1e-8 m + 4 ulp of llh2trs_R of the exact inputs *)
+Theorem check_llh2trs_sound : forall i llh xyz, check_llh2trs (i, llh, xyz) = 0%Z ->
+  exists a f lat lon h x y z,
+    ell_params i = Some (a, f) /\ llh = [lat; lon; h] /\ xyz = [x; y; z] /\ llh2trs_close a f lat lon h x y z.
+Proof. exact check_llh2trs_sound_l. Qed.
+Print Assumptions check_llh2trs_sound.
+
+(* the certificate's tolerance is the one of the property text *)
+Theorem geo_cert_tolerance : forall h tol, tol_geo h = Some tol ->
+  exists q, dy_toQ h = Some q /\ ((Qle q q_100km /\ tol = q_1em6) \/ (~ Qle q q_100km /\ tol = q_2mm)).
+Proof. exact tol_geo_values. Qed.
+Print Assumptions geo_cert_tolerance.
+
 (* ---------------------------------------------------------------- ellipsoid retention *)
 (* for every table of constructor call sites that forwards everywhere, every operation list keeps the ellipsoid,
    at the end and at every intermediate result *)
@@ -109,3 +149,15 @@ Proof.
   simpl. assert (E : sqrt (1² + 0²) = 1) by (unfold Rsqr; replace (1 * 1 + 0 * 0) with 1 by ring; apply sqrt_1).
   rewrite E. split; [apply Rlt_0_1 | unfold Rdiv; ring].
 Qed.
+
+(* non-vacuity: a point of midgard's own output satisfies the checks (GRS80, xyz = 3512345.678, 1234567.891, 5123456.789) *)
+Example ex_check_trs2llh :
+  check_trs2llh (2%nat, [(Dy 7542704909628473 (-31)); (Dy 5302428716536693 (-32)); (Dy 5501269837806043 (-30))], [(Dy 8517286059770389 (-53)); (Dy 3044478560115055 (-53)); (Dy (-4237156421647641) (-37))]) = 0%Z.
+Proof. vm_compute. reflexivity. Qed.
+Example ex_check_llh2trs :
+  check_llh2trs (2%nat, [(Dy 8517286059770389 (-53)); (Dy 3044478560115055 (-53)); (Dy (-4237156421647641) (-37))], [(Dy 7542704909628473 (-31)); (Dy 2651214358268347 (-31)); (Dy 2750634918903021 (-29))]) = 0%Z.
+Proof. vm_compute. reflexivity. Qed.
+(* ... and a latitude that is off by 1e-9 rad (6 mm) does not *)
+Example ex_check_trs2llh_rejects :
+  check_trs2llh (2%nat, [(Dy 7542704909628473 (-31)); (Dy 5302428716536693 (-32)); (Dy 5501269837806043 (-30))], [(Dy 2129321517194397 (-51)); (Dy 3044478560115055 (-53)); (Dy (-4237156421647641) (-37))]) = 11%Z.
+Proof. vm_compute. reflexivity. Qed.
